@@ -1,5 +1,6 @@
 """C09 configuration for bin/check and bin/mkmanifest.py."""
 CFG = {
+   "ready": True,
    "level_text": "Proof: for every canvas size, frame list, offsets over the whole int64 range, blend x dispose, HasAlpha flags and pixel alphas, the AnimDecoder model (key-frame shortcut, dual buffers, Go rectangle arithmetic with overflow clamp, uint32 blend) equals the container-specification model (Coq theorem C09_animdec_refines_spec, by an invariant over frame histories); the blend arithmetic is proved overflow-free and equal to the reference formula for all pixel pairs. The model is tied to the code on every run by extraction + differential execution against AnimDecoder.NextFrame (thousands of generated animations incl. a blend-kernel sweep) and by a regenerated constant obligation.",
    "level_note": "Trusted: Coq kernel, extraction (ExtrOcamlBasic), OCaml glue, Go harness, translator. The Go loops are modelled pointwise; the tie between model and code is sampled correspondence, not a proof about the Go text. Reset-replay and snapshot immutability are evaluated on the implementation only (pure in the model).",
    "technique": "Rocq proof of refinement (implementation model = specification model) by invariant over frame histories; extraction-based correspondence with the Go decoder",
